@@ -77,6 +77,7 @@ def monitorsWant (c : Spec.Ctx) (obsDelta : Int) (j : Journal) (fatalHere : Bool
   (if Spec.C07.orderHolds c j then [] else ["C07|order"]) ++
   (if Spec.C07.reuseHolds c j then [] else ["C07|reuse"]) ++
   (if Spec.C07.amountHolds c want j then [] else ["C07|amount", "C05|compose"]) ++
+  (if fatalHere then [] else (Spec.C07.shortfall c want j).flatMap (fun t => ["C07|remainder-not-requested: " ++ t, "C05|brought-too-few: " ++ t])) ++
   (if fatalHere then [] else (Spec.C06.bad c j ++ Spec.C06.badStarve c obsDelta j ++ Spec.C06.badMaxAge c obsDelta j).map (fun t => "C06|" ++ t)) ++
   (if fatalHere then [] else (Spec.C05.badScaleUp c obsDelta).map (fun t => "C05|" ++ t))
 
@@ -164,6 +165,18 @@ def handleScan (ds : DState) (sc : ScanCase) : DState × Json :=
       let mine := (paired.filter (fun t => t.1 == c.name)).map (fun t => t.2)
       (Spec.C15.bad (sc.nowReal / 1000000000) c.taintEffect none mine).map (fun n => "C15:" ++ c.name ++ ":" ++ n))
     let mons := mons ++ mon15
+    -- C03 against stale listings (needs the GET responses)
+    let mon03 : List String := sc.obs.recs.flatMap (fun ob =>
+      match ds.ctl.cfgs.find? (fun c => c.name == ob.name) with
+      | none => []
+      | some c =>
+        let stR : CState := { st with prov := match (refresh o 0 st.prov).val with | some p => p | none => st.prov }
+        match ctxFor ds.ctl stR c sc with
+        | none => []
+        | some ctx =>
+          let mine := (paired.filter (fun t => t.1 == c.name)).map (fun t => t.2)
+          (Spec.C03.staleBad ctx mine).map (fun t => "C03:" ++ c.name ++ ":" ++ t))
+    let mons := mons ++ mon03
     -- C02 on the observed journals
     let mon02 : List String := sc.obs.recs.flatMap (fun ob =>
       match ds.armed.lookup ob.name, ds.ctl.cfgs.find? (fun c => c.name == ob.name) with
